@@ -562,8 +562,10 @@ class UserTrackingManager:
 
             if tracked_user.flags == TrackingFlag(0):
                 # Ensure retry does not get scheduled again if we no longer
-                # desire to track the user
-                await cancel_task(tracked_user.retry_task)
+                # desire to track the user. Do not await the cancelled task:
+                # `cancel_task` would swallow a cancellation of this task
+                if tracked_user.retry_task:
+                    tracked_user.retry_task.cancel()
 
                 # Prevent RemoveUser from being called multiple times if there
                 # are multiple entries on the queue
